@@ -20,9 +20,15 @@ machine state and EVERY input script:
                            context and index with the same continuation; only the output gains the
                            banner and the input loses the one answered line: stepping is transparent
                            step by step.
-Whole-run transparency (same output minus banners, same final machine, one prompt per instruction)
-is checked on the model and against the real CLI by the L4 `prompt` group (stepping by -i, by a
-POPF-set trap flag, by INT 3).
+  * `stepping_transparent` : WHOLE runs — for every program (with a complete source map), state and
+                           run length, the `-i` run answered `next` throughout has the same exit status,
+                           executed-index trace and final machine as the run loop with stepping
+                           switched off (`loopPlain`); by induction over the run with `stepBody_same`
+                           (every outcome of an instruction: print, jump, repeat, INT 0/3/10h/21h
+                           incl. the lines the services read).  `plain_is_loopPlain_step`: the plain
+                           run is that loop as long as TF is clear.
+Output text (banners, one prompt per instruction) and the trap-flag and INT 3 modes are compared
+against the real CLI by the L4 `prompt` group.
 -/
 import Emu8086.Model.Driver
 
@@ -129,5 +135,170 @@ theorem stepped_quit (stdin : List String) (line : Nat) (text : String)
   simp only at he; subst he
   simp
 end
+
+/-! ### whole-run transparency of stepping -/
+
+/-- the run loop with stepping switched off altogether: what the program itself does -/
+def loopPlain (p : Prog) : Nat → Cont
+  | 0, _, m, _, _, out, tr => { stdout := out, exit := 0, trace := tr.reverse, final := some m, budget := true }
+  | fuel+1, idx, m, ctx, stdin, out, tr => stepBody p (loopPlain p fuel) idx m ctx stdin out tr
+
+/-- the same behaviour up to the text printed: exit status, executed indices, final machine -/
+def Same (r1 r2 : Result) : Prop :=
+  r1.exit = r2.exit ∧ r1.trace = r2.trace ∧ r1.final = r2.final ∧ r1.budget = r2.budget ∧ r1.panic = r2.panic
+
+/-- an input script every line of which is the same line `l` (an answer `next`) -/
+def script (l : String) (a : Nat) : List String := List.replicate a l
+
+theorem script_succ (l : String) (a : Nat) : script l (a + 1) = l :: script l a := rfl
+
+/-- INT 21h on such a script: machine and output do not depend on how long the script is, and at
+    most one line is consumed -/
+theorem int21_script (m : Machine) (ah : BitVec 8) (l : String) :
+    ∃ (m' : Machine) (s : String), ∀ a, ∃ a', a ≤ a' ∧ int21 m ah (script l (a + 1)) = (m', s, script l a') := by
+  unfold int21
+  by_cases h1 : ah = 0x01#8
+  · simp only [h1, beq_self_eq_true, if_true, script_succ]
+    exact ⟨_, _, fun a => ⟨a, Nat.le_refl _, rfl⟩⟩
+  · by_cases h2 : ah = 0x02#8
+    · subst h2
+      simp only [show ((0x02#8 : BitVec 8) == 0x01#8) = false by decide, Bool.false_eq_true, if_false, beq_self_eq_true, if_true]
+      exact ⟨_, _, fun a => ⟨a + 1, Nat.le_succ _, rfl⟩⟩
+    · by_cases h3 : ah = 0x0A#8
+      · subst h3
+        simp only [show ((0x0A#8 : BitVec 8) == 0x01#8) = false by decide, show ((0x0A#8 : BitVec 8) == 0x02#8) = false by decide,
+          Bool.false_eq_true, if_false, beq_self_eq_true, if_true, script_succ]
+        exact ⟨_, _, fun a => ⟨a, Nat.le_refl _, rfl⟩⟩
+      · have e1 : (ah == 0x01#8) = false := by simpa using h1
+        have e2 : (ah == 0x02#8) = false := by simpa using h2
+        have e3 : (ah == 0x0A#8) = false := by simpa using h3
+        simp only [e1, e2, e3, Bool.false_eq_true, if_false]
+        exact ⟨_, _, fun a => ⟨a + 1, Nat.le_succ _, rfl⟩⟩
+
+theorem lineInfo_interp (p : Prog) (b : Bool) (idx : Nat) : lineInfo { p with interpreted := b } idx = lineInfo p idx := rfl
+
+theorem Same.mk' {r1 r2 : Result} (h1 : r1.exit = r2.exit) (h2 : r1.trace = r2.trace) (h3 : r1.final = r2.final)
+    (h4 : r1.budget = r2.budget) (h5 : r1.panic = r2.panic) : Same r1 r2 := ⟨h1, h2, h3, h4, h5⟩
+
+/-- one instruction, executed with stepping on and with stepping off, on scripts that answer `next`:
+    the same behaviour, provided the rest of the run has it -/
+theorem stepBody_same (p : Prog) (l : String) (hl : trimLower l = "n" ∨ trimLower l = "next") (k1 k2 : Cont) (N : Nat)
+    (hk : ∀ idx m ctx tr o1 o2 a b, N ≤ a → N ≤ b → Same (k1 idx m ctx (script l a) o1 tr) (k2 idx m ctx (script l b) o2 tr))
+    (idx : Nat) (m : Machine) (ctx : Ctx) (tr : List Nat) (o1 o2 : String) (a b : Nat) (ha : N + 1 ≤ a) (hb : N + 1 ≤ b) :
+    Same (stepBody { p with interpreted := true } k1 idx m ctx (script l a) o1 tr) (stepBody p k2 idx m ctx (script l b) o2 tr) := by
+  obtain ⟨a, rfl⟩ : ∃ a', a = a' + 1 := ⟨a - 1, by omega⟩
+  obtain ⟨b, rfl⟩ : ∃ b', b = b' + 1 := ⟨b - 1, by omega⟩
+  have hNa : N ≤ a := by omega
+  have hNb : N ≤ b := by omega
+  unfold stepBody
+  simp only [lineInfo_interp]
+  generalize hq : (parseLine (p.code[idx]?.getD "")).map (exec idx m ctx) = q
+  cases q with
+  | none => exact Same.mk' rfl rfl rfl rfl rfl
+  | some r =>
+    cases r with
+    | error e => exact Same.mk' rfl rfl rfl rfl rfl
+    | ok v =>
+      obtain ⟨st, m', ctx'⟩ := v
+      cases st with
+      | HALT => exact Same.mk' rfl rfl rfl rfl rfl
+      | NEXT => exact hk _ _ _ _ _ _ _ _ (by omega) (by omega)
+      | REPEAT => exact hk _ _ _ _ _ _ _ _ (by omega) (by omega)
+      | JMP n => exact hk _ _ _ _ _ _ _ _ (by omega) (by omega)
+      | PRINT =>
+        simp only
+        cases lineInfo p idx with
+        | none => exact Same.mk' rfl rfl rfl rfl rfl
+        | some lt =>
+          obtain ⟨ln, text⟩ := lt
+          simp only
+          cases runPrint m' (p.code[idx]?.getD "") with
+          | none => exact Same.mk' rfl rfl rfl rfl rfl
+          | some s => exact hk _ _ _ _ _ _ _ _ (by omega) (by omega)
+      | INT n =>
+        simp only
+        by_cases h0 : n = 0#8
+        · subst h0
+          simp only [beq_self_eq_true, if_true]
+          cases lineInfo p idx with
+          | none => exact Same.mk' rfl rfl rfl rfl rfl
+          | some lt => exact Same.mk' rfl rfl rfl rfl rfl
+        · have e0 : (n == 0#8) = false := by simpa using h0
+          simp only [e0, Bool.false_eq_true, if_false]
+          by_cases h3 : n = 3#8
+          · subst h3
+            simp only [beq_self_eq_true, if_true]
+            cases lineInfo p idx with
+            | none => exact Same.mk' rfl rfl rfl rfl rfl
+            | some lt =>
+              obtain ⟨ln, text⟩ := lt
+              simp only [script_succ, prompt_next m' l _ _ hl]
+              exact hk _ _ _ _ _ _ _ _ hNa hNb
+          · have e3 : (n == 3#8) = false := by simpa using h3
+            simp only [e3, Bool.false_eq_true, if_false]
+            by_cases h10 : n = 0x10#8
+            · subst h10
+              simp only [beq_self_eq_true, if_true]
+              split
+              · cases lineInfo p idx with
+                | none => exact Same.mk' rfl rfl rfl rfl rfl
+                | some lt => exact Same.mk' rfl rfl rfl rfl rfl
+              · exact hk _ _ _ _ _ _ _ _ (by omega) (by omega)
+            · have e10 : (n == 0x10#8) = false := by simpa using h10
+              simp only [e10, Bool.false_eq_true, if_false]
+              by_cases h21 : n = 0x21#8
+              · subst h21
+                simp only [beq_self_eq_true, if_true]
+                split
+                · cases lineInfo p idx with
+                  | none => exact Same.mk' rfl rfl rfl rfl rfl
+                  | some lt => exact Same.mk' rfl rfl rfl rfl rfl
+                · obtain ⟨m'', s, h⟩ := int21_script m' (m'.getByteReg .AH) l
+                  obtain ⟨a', ha', ea⟩ := h a
+                  obtain ⟨b', hb', eb⟩ := h b
+                  rw [ea, eb]
+                  exact hk _ _ _ _ _ _ _ _ (by omega) (by omega)
+              · have e21 : (n == 0x21#8) = false := by simpa using h21
+                simp only [e21, Bool.false_eq_true, if_false]
+                exact Same.mk' rfl rfl rfl rfl rfl
+
+/-- **Stepping is transparent for whole runs.**  For every program whose instructions all have a
+    source-map entry, every start state and every length of run: executing with `-i` and answering
+    every prompt (and every read) with a line `l` that means `next` has the same exit status, executes
+    the same instruction indices in the same order and ends in the same machine as the run loop with
+    stepping switched off — whatever the two runs had printed before, and however long the scripts are
+    (two lines per remaining step suffice).  Interrupts, prints, calls, repeats and trap-flag changes
+    included. -/
+theorem stepping_transparent (p : Prog) (hmap : ∀ idx, idx + 2 ≤ p.code.size → (lineInfo p idx).isSome)
+    (l : String) (hl : trimLower l = "n" ∨ trimLower l = "next") :
+    ∀ (fuel idx : Nat) (m : Machine) (ctx : Ctx) (tr : List Nat) (o1 o2 : String) (a b : Nat), 2 * fuel ≤ a → 2 * fuel ≤ b →
+      Same (loop { p with interpreted := true } fuel idx m ctx (script l a) o1 tr) (loopPlain p fuel idx m ctx (script l b) o2 tr) := by
+  intro fuel
+  induction fuel with
+  | zero => intro idx m ctx tr o1 o2 a b _ _; exact Same.mk' rfl rfl rfl rfl rfl
+  | succ fuel ih =>
+    intro idx m ctx tr o1 o2 a b ha hb
+    simp only [loop, loopPlain, prePrompt, Bool.true_or, Bool.true_and, lineInfo_interp]
+    by_cases hidx : idx + 2 ≤ p.code.size
+    · have hs := hmap idx hidx
+      obtain ⟨a, rfl⟩ : ∃ a', a = a' + 1 := ⟨a - 1, by omega⟩
+      cases hli : lineInfo p idx with
+      | none => rw [hli] at hs; cases hs
+      | some lt =>
+        obtain ⟨line, text⟩ := lt
+        simp only [hidx, decide_true, if_true, script_succ, prompt_next m l _ _ hl]
+        exact stepBody_same p l hl _ _ (2 * fuel) ih idx m ctx tr _ _ a b (by omega) (by omega)
+    · simp only [hidx, decide_false, Bool.false_eq_true, if_false]
+      exact stepBody_same p l hl _ _ (2 * fuel) ih idx m ctx tr _ _ a b (by omega) (by omega)
+
+/-- the plain run itself is the run loop with stepping switched off for as long as the trap flag
+    is clear (`plain_step`, one step at a time) -/
+theorem plain_is_loopPlain_step (p : Prog) (hi : p.interpreted = false) (fuel idx : Nat) (m : Machine) (ctx : Ctx)
+    (stdin : List String) (out : String) (tr : List Nat) (htf : getFlag m.flag .TRAP = false) :
+    loop p (fuel + 1) idx m ctx stdin out tr = stepBody p (loop p fuel) idx m ctx stdin out tr :=
+  plain_step p fuel idx m ctx out tr stdin (by simp [hi, htf])
+
+/-- non-vacuity: the line `n` is such an answer (kernel-evaluated) -/
+example : trimLower "n" = "n" ∨ trimLower "n" = "next" := Or.inl (by decide)
 
 end Emu8086.Props.C20
